@@ -20,7 +20,7 @@ BOUNDS = {
     "outside": "more than 63 bits / 7 hashes (192 and 1438 bits were decided on an idle machine but are not part of the tier: their queries time out under load), more than 3 sub-filters; actual md5/sha256/fnv values (covered as arbitrary integers; FNV itself is C18)",
 }
 EXPECT_LABELS = {"quick": ["new-present", "old-still-present", "bits-monotone", "bits-exact", "count+1", "load-keeps-key",
-                           "union-keeps-keys", "expanding-keeps-old", "wrapper-present", "history-all-present"]}
+                           "union-keeps-keys", "expanding-keeps-old", "wrapper-present", "default-strategy-present", "history-all-present"]}
 
 SMALL = [(1, .9), (1, .5), (1, .3), (2, .3), (1, .05), (3, .28), (3, .25), (3, .2), (4, .25), (5, .3), (5, .22)]      # (3,.28)->8 bits, (5,.22)->16 bits: whole bytes
 QUICK = SMALL + [(10, .05)]
@@ -245,7 +245,31 @@ def history(ctx, cfg):
     ctx.check(ctx.and_([ctx.not_(p) for p in pad]), "history-padding-zero")
 
 
-HARNESS = {"c01.step": step, "c01.decide": absent_stays_decidable, "c01.wrappers": wrappers, "c01.load": load,
+# keys for the default strategy: the key handling of add()/check() is concrete string code, so it is exercised on a fixed
+# list (a SAMPLE of the key space: empty, ASCII, accents composed / decomposed, CJK, astral, NUL, Latin-1 edge, bytes >= 0x80)
+DEFAULT_KEYS = ["", "a", "caf\u00e9", "cafe\u0301", "\u65e5\u672c\u8a9e", "\U0001f600", "a\x00b", "\x80", "\u00ff", b"", b"a", b"\xff\x00\x80", "caf\u00e9".encode()]
+
+
+def default_strategy(ctx, cfg):
+    """add(key) / check(key) / `in` with the library's OWN default strategy (hash_function=None) from an arbitrary bit array:
+    the real FNV code hashes the key on both sides; every key of DEFAULT_KEYS is present right after its add, at the end,
+    and after export -> load (the loaded filter hashes with the default strategy again)"""
+    env.setup(ctx, "bloom")
+    from probables import BloomFilter
+    bf = sym_bloom(ctx, cfg["est"], cfg["fpr"])
+    ctx.assume(bf.elements_added <= 2 ** 64 - 2 - len(DEFAULT_KEYS))      # the 64-bit limit of the count is C16's subject
+    for s, key in enumerate(DEFAULT_KEYS):
+        cnt = bf.elements_added
+        bf.add(key)
+        ctx.check(bf.check(key) is True and (key in bf) is True, "default-strategy-present")
+        ctx.check(bf.check_alt(bf.hashes(key)) is True, "default-strategy-hashes-present")
+        ctx.check(ctx.eq(bf.elements_added, cnt + 1), "count+1")
+    ctx.check(all(bf.check(key) is True for key in DEFAULT_KEYS), "default-strategy-all-present")
+    g = BloomFilter.frombytes(env.export_bytes(ctx, bf))
+    ctx.check(all(g.check(key) is True for key in DEFAULT_KEYS), "default-strategy-load-keeps-keys")
+
+
+HARNESS = {"c01.default_strategy": default_strategy, "c01.step": step, "c01.decide": absent_stays_decidable, "c01.wrappers": wrappers, "c01.load": load,
            "c01.union": union, "c01.union_mismatch": union_mismatch, "c01.expanding": expanding, "c01.history": history, "c01.expanding_load": expanding_load}
 
 
@@ -260,6 +284,7 @@ def jobs(tier):
     for est, fpr in SMALL:
         js.append({"h": "c01.decide", "cfg": {"est": est, "fpr": fpr}})
         js.append({"h": "c01.wrappers", "cfg": {"est": est, "fpr": fpr}})
+        js.append({"h": "c01.default_strategy", "cfg": {"est": est, "fpr": fpr}})
         js.append({"h": "c01.union", "cfg": {"est": est, "fpr": fpr}})
         js.append({"h": "c01.history", "cfg": {"est": est, "fpr": fpr, "n": 3 if tier == "quick" else 4}})
         for ch in ("bytes", "dunder-bytes", "hex"):
